@@ -71,3 +71,15 @@ check("C19", "exploration", "Real RollingLogger, event_logger and AuthorizationR
       "Concurrent writers are not judged; earlier runs use the same settings.", "runtime monitoring: invariant check on directory listings at every quiescent point of generated histories", "DESIGN.md 3 C19")
 check("C20", "exploration", "All 2^L observation sequences up to L=16 (quick) / 22 (thorough), threshold-straddling and saturation-length runs through the real StatusState, and notification sequences through the real write_state_event, judged by the statement's trace predicates; "
       "exhaustive for the stated depths.", "Only what the statement fixes is required (a variant with a higher threshold still passes).", "runtime monitoring: exhaustive bounded enumeration through the real code with trace predicates (reference automaton compared for information)", "DESIGN.md 3 C20")
+
+check("C06", "exploration", "A user-space ASan+UBSan build of the unmodified eBPF C program runs generated worlds (tasks with uid!=gid, threads, the agent's own pid, TCP/UDP, IPv4/IPv6, listed and near-miss destinations, failing connects) with the two hook "
+      "invocations interleaved across threads; policy keys/values are the bytes the Rust side really produces (hook H1) and every audit value the C program writes is decoded by the production Rust decoders; a Python reference of the statement judges "
+      "the rewritten context and the audit map.", "The helper/map behaviour is a model of the documented semantics, not a kernel: verifier acceptance, struct sock_common offsets, attach points and the aya glue are out of reach (no kprobes/libbpf here).",
+      "sanitizers (ASan+UBSan) on the native eBPF source in user space + reference-model monitor + cross-language decode loop", "DESIGN.md 3 C06")
+check("C17", "exploration", "The real (release-profile) proxy_agent_setup binary is chroot-ed into a private overlay copy of the root file system with a stand-in systemctl that snapshots the four system files; PRNG command histories from three initial states "
+      "are judged by an executable file-tree model of each command's stated effect, byte-identity after backup;install;restore, stop-before-change/start-after-change, and confinement of all changes (overlay upper dir + strace of write-type syscalls).",
+      "File modes are not compared; the extension's orchestration of the tool is not driven. Release profile because clap's debug assertions abort debug builds on `restore`.",
+      "runtime monitoring: real binary in a private root + file-tree reference model + syscall/overlay confinement monitor", "DESIGN.md 3 C17")
+check("C18", "exploration", "The real EventReader (paused tokio clock) consumes generated event files (hostile markup text with unique ids, sizes around and above the 64KiB batch bound, corrupt files) against a mock host with upload fault patterns; every POST body "
+      "is parsed with expat and judged: size bound, flat Param structure, Context1 equals the original text, no id in two different batches or in a batch acknowledged twice, no loss without faults, termination and file removal.",
+      "Event text is free of control characters as the statement says; identical re-sends after a failed upload are the documented retry.", "runtime monitoring: unique-id history checker (at-most-once) + independent XML parser oracle under injected upload faults, virtual time", "DESIGN.md 3 C18")
